@@ -266,6 +266,8 @@ struct Exec {
     // oracle reference
     ref_startup: bool,
     ref_acc: i128,
+    /// C06 oracle: a message with a non-finite / non-positive-variance snapshot was delivered in this case
+    tainted: bool,
     key: String,
     interesting: bool,
 }
@@ -306,6 +308,7 @@ impl Exec {
             ctrl: None,
             ref_startup: true,
             ref_acc: 0,
+            tainted: false,
             key: String::new(),
             interesting: false,
         }
@@ -316,6 +319,7 @@ impl Exec {
         self.ctrl = Some(cfg.build(&self.sh));
         self.ref_startup = cfg.startup;
         self.ref_acc = cfg.acc as i128;
+        self.tainted = false;
         self.cfg = Some(cfg);
     }
 
@@ -579,6 +583,23 @@ impl Exec {
                     }
                 }
                 self.oracle(run, &end, &calls, false && finite);
+                // ORACLE (C06): as long as every snapshot delivered in this case was finite with positive
+                // variances (root delay / dispersion may be anything a peer can put on the wire), nothing
+                // non-finite is handed to the clock (`from_seconds` debug_assert) or published in the TimeSnapshot
+                if !finite {
+                    self.tainted = true;
+                }
+                if !self.tainted {
+                    if matches!(end, EndKind::Panic) && common::last_panic().contains("is_infinite") {
+                        run.oracle_fail("clock_args_finite", &format!("su={}", kv(&w[1..], "su").unwrap_or("?")), &format!("non-finite value handed to NtpDuration::from_seconds although every delivered snapshot was finite: {}", common::last_panic()));
+                    }
+                    if let Some(Some(t)) = upd.as_ref().map(|u| u.time_snapshot) {
+                        let fs = [t.root_variance_base, t.root_variance_linear, t.root_variance_quadratic, t.root_variance_cubic];
+                        if !fs.iter().all(|x| x.is_finite()) {
+                            run.oracle_fail("published_snapshot_finite", &format!("su={}", kv(&w[1..], "su").unwrap_or("?")), &format!("TimeSnapshot variances {:?} although every delivered snapshot was finite", fs));
+                        }
+                    }
+                }
                 let kind = match &end {
                     EndKind::Exit => 'X',
                     EndKind::Panic => 'P',
@@ -707,8 +728,10 @@ fn gen_source(rng: &mut Rng, id: u64) -> SimSource {
         ovar: *rng.pick(&[1e-10, 1e-8, 1e-6, 1e-4]),
         fvar: *rng.pick(&[1e-16, 1e-12, 1e-8]),
         delay: *rng.pick(&[0.0005, 0.01, 0.1, 0.6]),
-        su: *rng.pick(&[0, s(0.001), s(0.05)]),
-        sdl: *rng.pick(&[0, s(0.002), s(0.04)]),
+        // root dispersion / root delay are the peer's choice: one source in four advertises a boundary value
+        // of the 16.16 wire format (one unit, 1 s, 16 s, 65535 s, 0xFFFF.FFFF = 65535.99998 s)
+        su: if rng.chance(1, 4) { *rng.pick(&[1i64 << 16, 1 << 32, 16 << 32, 65535i64 << 32, 0xFFFF_FFFFi64 << 16]) } else { *rng.pick(&[0, s(0.001), s(0.05)]) },
+        sdl: if rng.chance(1, 4) { *rng.pick(&[1i64 << 16, 1 << 32, 16 << 32, 65535i64 << 32, 0xFFFF_FFFFi64 << 16]) } else { *rng.pick(&[0, s(0.002), s(0.04)]) },
         wander: *rng.pick(&[1e-16, 1e-12, 1e-8]),
         leap: *rng.pick(&[0u64, 0, 0, 0, 0, 1, 2, 3, 4]),
         // one source in five is a periodic one-way source (PPS-like): it knows the offset only modulo its period
